@@ -260,6 +260,20 @@ class Path:
     def snapshot_heap(self):
         return {a: c.copy() for a, c in self.heap.items()}
 
+    def fact(self, cond):
+        """A ground consequence of the path condition: only strengthens the feasibility solver."""
+        self.solver.add(cond)
+
+    def prove(self, cond, rlimit=3_000_000):
+        """True if the full path condition (quantified hypotheses included) entails cond."""
+        s = _mk_solver(rlimit)
+        for h in BACKGROUND():
+            s.add(h)
+        for h in self.pc:
+            s.add(h)
+        s.add(z3.Not(cond))
+        return s.check() == z3.unsat
+
     def truncate(self, n):
         del self.pc[n:]
         del self.pc_keys[n:]
